@@ -258,8 +258,8 @@ func c14Strip(src string) string {
 func C14(tier common.Tier) int {
 	run := common.NewRun("C14", tier, "exploration")
 	thorough := tier == "thorough"
-	run.SetRule("finite grid enumerated completely: a module mixing regular, in-package _test.go, external test package, *_gen.go, a legacy/ sub-package and a testdata package named explicitly, every file with annotations, @ignore comments and violations, x scan-tests {off,on} x exclude-paths {default, empty, _gen.go, 'legacy,_gen.go', ' legacy , ,_gen.go ', '_gen.go,zz_gen.go', 'legacy/zz,legacy', '_gen.go,_gen.go'} x {flag, env} x both real drivers. Oracles per cell: (exact) diagnostics = want-markers whose own file and annotation-holding files are not excluded by the reference filter, TONL never in _test.go; (positional) no diagnostic in an excluded file; (differential) replacing every excluded file by its inert twin leaves the diagnostics unchanged. Non-trivial = a cell whose configuration excludes at least one file that carries wants.",
-		"1 program x 2 x 8 configurations x {flag,env} x 2 drivers x {full, excluded files stripped}")
+	run.SetRule("finite grid enumerated completely: a module mixing regular, in-package _test.go, external test package, *_gen.go, a legacy/ sub-package and a testdata package named explicitly, every file with annotations, @ignore comments and violations, x scan-tests {off,on} x exclude-paths {default, empty, _gen.go, 'legacy,_gen.go', ' legacy , ,_gen.go ', '_gen.go,zz_gen.go', 'legacy/zz,legacy', '_gen.go,_gen.go', 'testdata' given explicitly}; a flag is always accompanied by the opposite value in the environment variable x {flag, env} x both real drivers. Oracles per cell: (exact) diagnostics = want-markers whose own file and annotation-holding files are not excluded by the reference filter, TONL never in _test.go; (positional) no diagnostic in an excluded file; (differential) replacing every excluded file by its inert twin leaves the diagnostics unchanged. Non-trivial = a cell whose configuration excludes at least one file that carries wants.",
+		"1 program x 2 x 9 configurations x {flag,env} x 2 drivers x {full, excluded files stripped}")
 	run.Assume("go list / go vet package selection is trusted; the scratch path contains no exclude entry")
 	drv.Binary()
 	root := drv.Scratch()
@@ -278,7 +278,9 @@ func C14(tier common.Tier) int {
 			// entries that contain one another, in both orders, and a repeated entry: every entry counts on its own
 			c14Cfg{scan, []string{"_gen.go", "zz_gen.go"}, strp("_gen.go,zz_gen.go")},
 			c14Cfg{scan, []string{"legacy/zz", "legacy"}, strp("legacy/zz,legacy")},
-			c14Cfg{scan, []string{"_gen.go"}, strp("_gen.go,_gen.go")})
+			c14Cfg{scan, []string{"_gen.go"}, strp("_gen.go,_gen.go")},
+			// the built-in default given explicitly (as a flag it must still beat the variable)
+			c14Cfg{scan, []string{"testdata"}, strp("testdata")})
 	}
 	type cell struct {
 		cfg    c14Cfg
@@ -343,9 +345,16 @@ func C14(tier common.Tier) int {
 					req.Env["GOGREEMENT_EXCLUDE_PATHS"] = *c.cfg.pathsArg
 				}
 			} else {
+				// flags win over the environment: every option given by flag gets the OPPOSITE value in its variable
 				req.Flags = []string{fmt.Sprintf("-config.scan-tests=%v", c.cfg.scan)}
+				req.Env = map[string]string{"GOGREEMENT_SCAN_TESTS": fmt.Sprint(!c.cfg.scan)}
 				if c.cfg.pathsArg != nil {
 					req.Flags = append(req.Flags, "-config.exclude-paths="+*c.cfg.pathsArg)
+					if len(c.cfg.paths) == 0 {
+						req.Env["GOGREEMENT_EXCLUDE_PATHS"] = "legacy,_gen.go,testdata,x.go"
+					} else {
+						req.Env["GOGREEMENT_EXCLUDE_PATHS"] = ""
+					}
 				}
 			}
 			o := drv.Run(req)
